@@ -47,6 +47,9 @@ class Gen:
         self.nrt_only = nrt_only
         self.features = set(features)   # 'tempo', 'cond', 'flow', 'send', 'rand', 'call'
         self.next_id = 0
+        self.single_clock = None      # force every routine onto this clock index
+        self.all_seeded = False
+        self.tempos = TEMPOS
         self.cond_heavy = False
         self.nconds = 0
         self.nflows = 0
@@ -55,7 +58,10 @@ class Gen:
     def program(self):
         rng = self.rng
         nclocks = rng.choice([0, 1, 1, 2, 3])
-        clocks = [{'kind': 'tempo', 'tempo': rng.choice(TEMPOS)} for _ in range(nclocks)]
+        clocks = [{'kind': 'tempo', 'tempo': rng.choice(self.tempos)}
+                  for _ in range(nclocks)]
+        if self.single_clock is not None and self.single_clock >= 0 and not clocks:
+            clocks = [{'kind': 'tempo', 'tempo': rng.choice(self.tempos)}]
         self.clocks = clocks
         self.budget = rng.choice([8, 20, 40]) if self.rt_safe else rng.choice([8, 25, 60])
         ntop = rng.randint(1, 4)
@@ -74,6 +80,8 @@ class Gen:
 
     def clock_index(self):
         rng = self.rng
+        if self.single_clock is not None:
+            return self.single_clock
         opts = [SYS, SYS] + list(range(len(self.clocks))) * 2
         if self.nrt_only:
             opts.append(APP)
@@ -89,7 +97,7 @@ class Gen:
         ci = self.clock_index()
         R = {'id': rid, 'clock': ci, 'free': free,
              'seed': rng.randrange(1 << 30) if 'rand' in self.features
-             and rng.random() < 0.7 else None}
+             and (rng.random() < 0.7 or self.all_seeded or depth == 0) else None}
         n = rng.randint(1, 7)
         body = []
         for _ in range(n):
@@ -110,7 +118,7 @@ class Gen:
                 if self.rt_safe and ci != tci:
                     body.append(['y', self.delta()])
                 else:
-                    body.append(['tempo', tci, rng.choice(TEMPOS)])
+                    body.append(['tempo', tci, rng.choice(self.tempos)])
             elif x < 0.74 and 'send' in self.features:
                 body.append(['send', rng.choice([None, -1, 0, 0, 1e-9, 0.2, 3]),
                              rid * 1000 + len(body)])
@@ -140,6 +148,9 @@ class Gen:
                 f = rng.randrange(self.nflows)
                 body.append(['fget', f])
                 self.pending_waits.append(('f', f))
+            elif x < 0.97 and 'pr' in self.features and rid > 0:
+                tgt = rng.randrange(rid)          # an older routine
+                body.append([rng.choice(['pause', 'resume', 'resume', 'stop']), tgt])
             elif x < 0.99 and 'call' in self.features:
                 inner = {'id': self.next_id, 'clock': ci,
                          'body': [['yv', rng.randrange(100)]
@@ -157,7 +168,8 @@ class Gen:
         flows = sorted({w[1] for w in self.pending_waits if w[0] == 'f'})
         if not conds and not flows:
             return
-        sig = {'id': self.next_id, 'clock': SYS if self.rt_safe or rng.random() < 0.6
+        sig = {'id': self.next_id, 'clock': self.single_clock if self.single_clock
+               is not None else SYS if self.rt_safe or rng.random() < 0.6
                else self.clock_index(), 'free': True, 'seed': None, 'body': []}
         self.next_id += 1
         external = []
@@ -422,12 +434,22 @@ class Run:
                 c.tempo = s[2]
                 self.log.append(('tempo', st['rid'], s[1], s[2],
                                  self.now_secs() - self.T0))
+            elif op in ('pause', 'resume', 'stop'):
+                tgt = self.routines.get(s[1])
+                out = 'absent'
+                if tgt is not None:
+                    try:
+                        getattr(tgt, op)()
+                        out = 'ok'
+                    except Exception as e:
+                        out = type(e).__name__
+                self.log.append((op, st['rid'], s[1], out, self.now_secs() - self.T0))
             elif op == 'send':
-                self.addr.send_bundle(s[1], ['/vf', s[2]])
+                self.addr.send_bundle(s[1], ['/vf', self.tag * 100000 + s[2]])
                 self.log.append(('send', st['rid'], s[2], s[1],
                                  self.now_secs() - self.T0))
             elif op == 'msg':
-                self.addr.send_msg('/vf', s[1])
+                self.addr.send_msg('/vf', self.tag * 100000 + s[1])
                 self.log.append(('msg', st['rid'], s[1], self.now_secs() - self.T0))
             elif op == 'rand':
                 name, a, b = s[1], s[2], s[3]
